@@ -29,7 +29,12 @@ EXPLANATION = (
     "forms): the printer's handler fails at every call in turn; the next texts, of another formula and of the same "
     "one, are those of a fresh environment (R7).  Human-readable parser: after a rejected text (undeclared names, "
     "truncated input) the same parser object reads later texts as a fresh one (R8).  Sort manager: ill-formed sort "
-    "requests are rejected twice and leave its tables unchanged (part of R2).")
+    "requests are rejected twice and leave its tables unchanged (part of R2).  Other rejected requests to the real manager (a fresh "
+    "symbol over something that is not a sort, a symbol re-declared with another sort, an unknown name): rejected twice, every table, counter "
+    "and flag of the manager unchanged, later fresh names and node ids as in a manager that never saw the request (part of R2).  One-shot "
+    "queries that fail - is_sat whose assertion the back-end refuses or whose solve answers unknown, with and without the incremental "
+    "interface - leave no level behind (part of R6).  A substitution that fails inside the body of a quantifier leaves the caller's map as it "
+    "was (R9).")
 NOT_DECIDED = ["traces inherent to the design (symbols declared by a failing script stay declared; symbols a failed "
                "add_assertion had already declared in the solver process stay declared and show up in later models)",
                "failures injected elsewhere than at handler calls (e.g. inside the walker's own loop)",
